@@ -103,6 +103,9 @@ struct Node {
     ext: &'static str,
     loads: Vec<(usize, Load)>,
     body: String,
+    /// how the @import rules of this file are written: 0 = at the top level; otherwise the
+    /// same file is imported inside style rules / @media, once or twice, at growing depth
+    nest: u8,
 }
 
 fn render(node: &Node, nodes: &[Node], dir_of_loader: &str) -> String {
@@ -131,7 +134,39 @@ fn render(node: &Node, nodes: &[Node], dir_of_loader: &str) -> String {
     }
     for (i, l) in &node.loads {
         if *l == Load::Import {
-            s.push_str(&format!("@import \"{}\"{}\n", rel(&nodes[*i].url), semi));
+            let u = rel(&nodes[*i].url);
+            // (depths of the first and of the second import; 0 = none)
+            let (d1, d2, media) = match node.nest {
+                0 => (0usize, 0usize, false),
+                1 => (1, 0, false),
+                2 => (1, 2, false),
+                3 => (2, 3, false),
+                4 => (2, 1, false),
+                _ => (1, 2, true),
+            };
+            if d1 == 0 {
+                s.push_str(&format!("@import \"{}\"{}\n", u, semi));
+                continue;
+            }
+            for (k, d) in [d1, d2].iter().enumerate() {
+                if *d == 0 {
+                    continue;
+                }
+                for lvl in 0..*d {
+                    let head = if media && lvl == 0 { "@media screen".to_string() } else { format!(".nw{}-{}-{}", i, k, lvl) };
+                    if sass {
+                        s.push_str(&format!("{}{}\n", "  ".repeat(lvl), head));
+                    } else {
+                        s.push_str(&format!("{}{} {{\n", "  ".repeat(lvl), head));
+                    }
+                }
+                s.push_str(&format!("{}@import \"{}\"{}\n", "  ".repeat(*d), u, semi));
+                if !sass {
+                    for lvl in (0..*d).rev() {
+                        s.push_str(&format!("{}}}\n", "  ".repeat(lvl)));
+                    }
+                }
+            }
         }
     }
     s.push_str(&node.body);
@@ -156,7 +191,7 @@ pub fn gen_project(rng: &mut Rng, corpus: &[CorpusItem], pools: &Pools, go: &Gen
     let ndeps = rng.range(1, go.max_deps as u64) as usize;
     let exts = ["scss", "scss", "scss", "sass", "sass", "css"];
     let entry_ext = *rng.pick(&["scss", "scss", "scss", "sass", "sass"]);
-    let mut nodes: Vec<Node> = vec![Node { path: format!("main.{}", entry_ext), url: "main".into(), ext: entry_ext, loads: vec![], body: String::new() }];
+    let mut nodes: Vec<Node> = vec![Node { path: format!("main.{}", entry_ext), url: "main".into(), ext: entry_ext, loads: vec![], body: String::new(), nest: 0 }];
     for i in 1..=ndeps {
         let ext = *rng.pick(&exts);
         let sub = rng.chance(0.2);
@@ -167,7 +202,7 @@ pub fn gen_project(rng: &mut Rng, corpus: &[CorpusItem], pools: &Pools, go: &Gen
         let us = if partial { "_" } else { "" };
         let path = if index { format!("{}{}/{}index.{}", dir, base, us, ext) } else { format!("{}{}{}.{}", dir, us, base, ext) };
         let url = if rng.chance(0.15) && !index { format!("{}{}.{}", dir, base, ext) } else { format!("{}{}", dir, base) };
-        nodes.push(Node { path, url, ext, loads: vec![], body: String::new() });
+        nodes.push(Node { path, url, ext, loads: vec![], body: String::new(), nest: 0 });
     }
     // wire: each dep is loaded by the entry or by an earlier non-css dep
     for i in 1..=ndeps {
@@ -187,6 +222,9 @@ pub fn gen_project(rng: &mut Rng, corpus: &[CorpusItem], pools: &Pools, go: &Gen
         }
     }
     for i in 0..nodes.len() {
+        if rng.chance(0.25) {
+            nodes[i].nest = rng.range(1, 5) as u8;
+        }
         let loader = !nodes[i].loads.is_empty();
         nodes[i].body = body_for(rng, corpus, pools, nodes[i].ext, loader || i == 0);
     }
